@@ -4,6 +4,7 @@ cd "$(dirname "$0")" || exit 2
 export PYTHONPATH=/repo PYTHONHASHSEED=0 PIP_NO_INDEX=1
 /venv/bin/python tools/extract.py || echo "setup: extraction failed (the checks will report it)"
 /venv/bin/python tools/alias_extract.py > /dev/null || echo "setup: alias extraction failed (check C18 will report it)"
+/venv/bin/python tools/kernel_extract.py > /dev/null || echo "setup: kernel translation failed (check C01 will report it)"
 /venv/bin/python - <<'PY'
 import sys; sys.path.insert(0, 'tools')
 import check
